@@ -90,9 +90,9 @@ META.update({
     },
     "C14": {
         "text": "For ALL fault scripts of any length: EINTR is never reported and is equivalent to deleting the interrupted calls, bytes consumed are exactly the bytes stored at consecutive addresses (splice equation), "
-                "exact forms ok iff the full count moved, errors end the transfer and are reported, frame outside the prefix, loop fuel never runs out (27 theorems). Tied by scripted streams (full/short/zero/EINTR/fail) "
+                "exact forms ok iff the full count moved, errors end the transfer and are reported, frame outside the prefix, loop fuel never runs out — at slice level (27 theorems) and at guest-memory level through try_access across region boundaries and into holes (29 theorems). Tied by scripted streams (full/short/zero/EINTR/fail) "
                 "at slice, region and guest-memory level incl. ranges spanning regions and ending in holes; consumed/delivered-bytes oracle.",
-        "design_ref": "DESIGN.md 6/C14", "note": PROOF_NOTE + "Guest-memory-level forms are tied by the run and by C03's loop theorems; the Lean theorems here are at slice level.",
+        "design_ref": "DESIGN.md 6/C14", "note": PROOF_NOTE + "Slice level in Props/C14, guest-memory level (ranges spanning regions, ending in holes) in Props/C14g.",
         "technique": "Lean 4 induction over fault scripts + scripted-stream differential run",
     },
     "C17": {
@@ -153,5 +153,13 @@ META.update({
                 "Tied by requests around EOF/overflow boundaries, flag sets incl. MAP_FIXED, aligned/misaligned raw pointers, /proc/self/maps before/after failures, and pread/pwrite vs region bytes for shared file mappings.",
         "design_ref": "DESIGN.md 6/C15", "note": PROOF_NOTE + "The kernel is a parameter of the model.",
         "technique": "Lean 4 acceptance-condition theorems + differential run with an independent acceptance predicate and /proc/self/maps",
+    },
+    "C07": {
+        "text": "For every public access/query entry point of slices (20 request kinds incl. all stream forms with ANY reader/writer kind and script), bitmaps (8) and guest memory (21), every operand value, under the constructor invariants, the model "
+                "result is proved not to be a panic; since plain + - * / , unwrap, indexing and asserts are modelled as panicking primitives this covers overflow in checked builds, division by zero and index/unwrap panics, and "
+                "checked/unchecked builds agree; termination is by Lean's totality with explicit measures and loop fuel proved sufficient; the documented index panics are stated exactly (27 theorems). "
+                "Tied by running every entry point with the boundary-heavy 64-bit operand distribution under catch_unwind in BOTH a release build and a build with overflow checks + debug assertions.",
+        "design_ref": "DESIGN.md 6/C07", "note": PROOF_NOTE + "Allocation failure and stack overflow are not modelled.",
+        "technique": "Lean 4 no-panic theorems over request enumerations + differential run in checked and unchecked builds",
     },
 })
